@@ -1,5 +1,6 @@
 """C16 Structural editing keeps a statechart sound; failed edits change nothing."""
 import ast
+import re
 
 from .. import q
 from ..cfg import guards, guard_atoms, build_cfg
@@ -11,7 +12,7 @@ EXPLANATION = (
     'parameter-derived value that no dominating existence check has validated yet); add/remove/rename touch the same co-update set of '
     'structures; remove_state recurses over a copy of the children, removes every transition touching the state and resets every '
     'initial/memory that pointed to it; move_state refuses to move into itself or a descendant before writing and resets the '
-    'references to the moved state; the registration tests of add_state / add_transition are those of C12.1. Decides atomicity of '
+    'references to the moved state; every normal exit of add / remove / move has performed the defining write (no silent no-op); the registration tests of add_state / add_transition are those of C12.1. Decides atomicity of '
     'rejected edits and the shape of the cascades, not the full post-state against an independent model.')
 
 MUTATORS = ['add_state', 'remove_state', 'rename_state', 'move_state', 'add_transition', 'remove_transition', 'rotate_transition']
@@ -341,8 +342,51 @@ def rules_cascade(run):
               'parent link and both children lists updated', 'writes are %s' % sorted(ws), M)
 
 
+def rules_effect(run):
+    """A successful edit has its documented effect: no path through an edit reaches a normal exit (return or end of the function) without
+    having performed the write that IS the edit. (An early `return` for a case judged redundant - "already registered" decided with ==
+    on value-comparable elements - silently drops the caller's object.)"""
+    from ..cfg import build_cfg
+    prog = run.prog
+    r = run.rule('C16.8', 'a successful edit has its effect: every path to a normal exit of add_state / add_transition / remove_state / remove_transition / move_state '
+                          'passes the defining write (no silent no-op)')
+    table = {
+        'add_state': lambda n: isinstance(n, ast.Assign) and isinstance(n.targets[0], ast.Subscript) and q.unparse(n.targets[0].value) == 'self._states',
+        'add_transition': lambda n: isinstance(n, ast.Call) and q.unparse(n.func) in ('self._transitions.append', 'self._transitions.insert'),
+        'remove_transition': lambda n: (isinstance(n, ast.Call) and q.unparse(n.func) in ('self._transitions.remove', 'self._transitions.pop')) or
+                                       (isinstance(n, ast.Delete) and q.unparse(n.targets[0]).startswith('self._transitions[')),
+        'remove_state': lambda n: (isinstance(n, ast.Call) and q.unparse(n.func) == 'self._states.pop') or
+                                  (isinstance(n, ast.Delete) and q.unparse(n.targets[0]).startswith('self._states[')),
+        'move_state': lambda n: isinstance(n, ast.Assign) and isinstance(n.targets[0], ast.Subscript) and q.unparse(n.targets[0].value) == 'self._parent',
+    }       # (rename_state(x, x) legitimately returns at once: renaming to the same name is the identity)
+    for name, pred in table.items():
+        fi = run.fn('Statechart.' + name)
+        F = fi.node
+        cfg = build_cfg(F)
+        eff = []
+        for n in q.walk(F, False):
+            if pred(n):
+                st = n if isinstance(n, ast.stmt) else q.enclosing_stmt(n)
+                # unconditional within its statement (not in a short-circuit operand or a conditional expression)
+                eff.append(st)
+        run.anchor(eff, r, 'defining write of ' + name)
+        # `if any(t is transition for t in self._transitions): return` - the very object is registered already: its effect holds (== would not do: elements
+        # compare by value)
+        par_ = q.param_names(F)[1] if len(q.param_names(F)) > 1 else None
+        if name.startswith('add_') and par_:
+            for x in q.walk(F, False):
+                if isinstance(x, ast.Return) and any(pol and re.search(r'\bis %s\b|\b%s is (?!not\b|None\b)' % (par_, par_), q.unparse(e_)) for e_, pol, *_ in guards(x)):
+                    eff.append(x)
+        nodes = [q.cfgnode(F, e) for e in eff]
+        run.check(cfg.cut(nodes, cfg.exit), r, fi.short, 'every normal exit has performed the defining write',
+                  'a path returns normally without %s: the edit silently does nothing' % {'add_state': 'registering the state', 'add_transition': 'registering the transition',
+                  'remove_transition': 'removing the transition', 'remove_state': 'removing the state', 'move_state': 're-parenting the state',
+                  'rename_state': 'renaming the state'}[name], F)
+
+
 def check(run):
     run.guard(rules_atomic, run)
+    run.guard(rules_effect, run)
     run.guard(rules_coupdate, run)
     run.guard(rules_cascade, run)
     from .c12 import rules_registration
@@ -438,6 +482,17 @@ def _write_scopes(prog, m, fld, query_writers):
             continue
         lp = q.enclosing(node, ast.For)
         sc = 'KEYED'
+        # walking up the parent links by hand: while k: <write [k]>; k = self._parent[k]
+        wl = q.enclosing(node, ast.While)
+        if wl is not None and prog.func_of(wl) is f:
+            for st in ast.walk(wl):
+                if isinstance(st, ast.Assign) and len(st.targets) == 1 and isinstance(st.targets[0], ast.Name) and \
+                        q.unparse(st.value) in ('self._parent[%s]' % st.targets[0].id, 'self.parent_for(%s)' % st.targets[0].id) and \
+                        any(isinstance(n_, ast.Name) and n_.id == st.targets[0].id for n_ in ast.walk(node)):
+                    sc = 'LOOP:anc'
+        if sc != 'KEYED':
+            out.append((sc, f, node))
+            continue
         while lp is not None and prog.func_of(lp) is f:
             texts = [q.unparse(o) for o in [lp.iter] + q.local_origin(f.node, lp.iter)]
             if any('descendants_for(' in t for t in texts):
@@ -497,7 +552,13 @@ def cache_findings(prog):
                 if down:
                     par_w = [n_ for c_, f_, k_, n_ in prog.direct_writes(m) if f_ == '_parent']
                     anc = [n_ for sc, f_, n_ in scopes if sc == 'LOOP:anc' and f_ is m]
-                    before = any(all(q.strictly_before(m.node, a_, w_) for w_ in par_w) for a_ in anc)
+                    for sc, f_, n_ in scopes:
+                        if sc == 'LOOP:anc' and f_ is not m:      # done by a helper: judged where the edit calls it
+                            anc += [c_ for c_ in q.calls(m.node) if f_ in prog.resolve_call(c_, m)[0]]
+                    def head(a_):      # (the loop that walks the ancestors runs before the write when its head does; its body may run zero times)
+                        lp_ = q.enclosing(a_, (ast.For, ast.While))
+                        return lp_ if lp_ is not None and prog.func_of(lp_) is m else a_
+                    before = any(all(q.strictly_before(m.node, head(a_), w_) for w_ in par_w) for a_ in anc)
                     after = any(all(q.strictly_before(m.node, w_, a_) for w_ in par_w) for a_ in anc)
                     if not (before and after):
                         why = 'the entries of the old and of the new ancestors of the moved state must both be dropped (found: %s)' % sorted(kinds)
@@ -518,12 +579,18 @@ FIXTURE_EDITS = [
 ]
 
 
-def rules_caches(run, P='C16', rid='.7'):
+def rules_caches(run, P='C16', rid='.7', reach=None):
     r = run.rule(P + rid, 'derived data: every Statechart field that memoises a query result or indexes the structures redundantly is cleared or rewritten by every edit '
                           'that deletes or rebinds entries it is computed from (a stale cached depth changes the order of transitions after a rename; a stale '
                           'by-source index makes the exporter file a rotated transition under its old source)')
     prog = run.prog
     caches, bad = cache_findings(prog)
+    if reach:
+        # only the derived fields whose memoising query serves the given part of the interpreter
+        names = set(prog.reach_names([prog.fn(x) for x in reach]))
+        served = {fld for fld, writers in caches.items() if any(m_.short in names for m_, n_ in writers)}
+        caches = {fld: w_ for fld, w_ in caches.items() if fld in served}
+        bad = [b_ for b_ in bad if b_[0] in served]
     for fld, m, why in bad:
         if why == 'not invalidated':
             run.fail(r, m.short, 'cache %s not invalidated' % fld, 'the memoised field %s (written by %s) survives this edit: queries answer from stale data afterwards'
